@@ -410,7 +410,124 @@ def _loads(node):
     return out
 
 
+def s4_distinct_names(prog, ctx):
+    """The experiment names a description parser returns become output folders and file prefixes; they are distinct because every name was
+    looked up in the list of names collected so far (and replaced on a hit) before it was appended.  That argument holds only if (a) the
+    returned list is the list the look-ups were made in - created empty, grown by append only, never rebuilt - and (b) a name is not
+    re-assigned between its look-up and its append."""
+    from ..engine import flow
+    n = 0
+    for q in ("InputDataStorage.get_samples_from_file", "InputDataStorage.get_samples_from_yaml"):
+        f = prog.func(IDS, q)
+        rets = [r for r in walk_no_nested(f) if isinstance(r, ast.Return) and isinstance(r.value, ast.Tuple)]
+        if not rets:
+            ctx.undecided("S4", f, q, "the parser does not return a tuple")
+            continue
+        cands = set()
+        for c in walk_no_nested(f):
+            if isinstance(c, ast.Compare) and len(c.ops) == 1 and isinstance(c.ops[0], (ast.In, ast.NotIn)) and isinstance(c.left, ast.Name) \
+                    and isinstance(c.comparators[0], ast.Name) and any(isinstance(e, ast.Name) and e.id == c.comparators[0].id
+                                                                       for r in rets for e in r.value.elts):
+                cands.add((c.left.id, c.comparators[0].id))
+        lists = {r for _x, r in cands}
+        if len(lists) != 1:
+            ctx.undecided("S4", f, q, "no single returned list in which names are looked up before they are added (found %s)" % sorted(lists))
+            continue
+        R = lists.pop()
+        names = {x for x, _r in cands}
+        # (a) the list
+        for st in walk_no_nested(f):
+            tg = []
+            if isinstance(st, ast.Assign):
+                tg = [t for t in st.targets for t in ast.walk(t) if isinstance(t, ast.Name) and isinstance(t.ctx, ast.Store)]
+                val = st.value
+            elif isinstance(st, (ast.AugAssign, ast.AnnAssign)):
+                tg, val = [st.target] if isinstance(st.target, ast.Name) else [], st.value
+            elif isinstance(st, ast.For):
+                tg, val = [t for t in ast.walk(st.target) if isinstance(t, ast.Name)], None
+            for t in tg:
+                if t.id != R:
+                    continue
+                n += 1
+                if isinstance(st, ast.Assign) and isinstance(val, ast.List) and not val.elts and not flow.enclosing_loops(st):
+                    ctx.ok("S4", "%s:%d" % (IDS, st.lineno), "%s: %s starts empty" % (q, R))
+                else:
+                    ctx.fail("S4", st, q, "%s rebuilt: %s" % (R, src(st)[:70]),
+                             "the list of experiment names is rebuilt after names were looked up in it: names that passed the duplicate check "
+                             "separately can coincide afterwards, and two experiments of one run then share an output folder")
+            if isinstance(st, ast.Expr) and isinstance(st.value, ast.Call) and isinstance(st.value.func, ast.Attribute) \
+                    and isinstance(st.value.func.value, ast.Name) and st.value.func.value.id == R:
+                n += 1
+                meth, c = st.value.func.attr, st.value
+                if meth == "append" and len(c.args) == 1 and isinstance(c.args[0], ast.Name) and c.args[0].id in names:
+                    ctx.ok("S4", "%s:%d" % (IDS, st.lineno), "%s: %s grows by append(%s), a looked-up name" % (q, R, c.args[0].id))
+                elif meth in ("append", "extend", "insert", "__setitem__", "sort", "reverse", "remove", "pop", "clear"):
+                    ctx.fail("S4", st, q, "%s.%s(%s)" % (R, meth, ", ".join(src(a) for a in c.args)[:50]),
+                             "the list of experiment names is changed by something else than append(<looked-up name>): distinctness of the "
+                             "returned names no longer follows from the duplicate check")
+            if isinstance(st, ast.Assign) and any(isinstance(t, ast.Subscript) and isinstance(t.value, ast.Name) and t.value.id == R for t in st.targets):
+                n += 1
+                ctx.fail("S4", st, q, "%s[...] = ..." % R, "an element of the list of experiment names is overwritten after the duplicate check")
+        for r in rets:
+            if not any(isinstance(e, ast.Name) and e.id == R for e in r.value.elts):
+                ctx.fail("S4", r, q, "return without %s" % R, "the returned names are not the list the duplicate look-ups were made in")
+        # (b) per iteration: a name assigned on a path is looked up in R after its last plain assignment
+        for lp in [l for l in walk_no_nested(f) if isinstance(l, (ast.For, ast.While)) and not flow.enclosing_loops(l)]:
+            if not any(isinstance(x, ast.Name) and x.id in names and isinstance(x.ctx, ast.Store) for x in ast.walk(lp)):
+                continue
+            for p in flow.block_paths(lp.body, "%s loop at line %d" % (q, lp.lineno)):
+                state = {}           # name -> "assigned" | "looked-up"
+                hit = set()
+                for ev in p.events:
+                    if ev[0] == "cond":
+                        for c in ast.walk(ev[1]):
+                            if isinstance(c, ast.Compare) and len(c.ops) == 1 and isinstance(c.ops[0], (ast.In, ast.NotIn)) \
+                                    and isinstance(c.left, ast.Name) and c.left.id in names and src(c.comparators[0]) == R:
+                                state[c.left.id] = "looked-up"
+                                present = isinstance(c.ops[0], ast.In) == ev[2]
+                                if present and ev[1] is c:
+                                    hit.add(c.left.id)
+                        continue
+                    if ev[0] != "stmt":
+                        continue
+                    st = ev[1]
+                    if isinstance(st, ast.Expr) and isinstance(st.value, ast.Call) and (call_name(st.value) or "") in ("exit", "sys.exit", "os._exit", "quit"):
+                        state = {}
+                        break
+                    if isinstance(st, ast.Assign):
+                        for t in st.targets:
+                            if isinstance(t, ast.Name) and t.id in names:
+                                # the replacement made because the look-up hit is part of the duplicate handling
+                                state[t.id] = "looked-up" if t.id in hit else "assigned"
+                                if t.id in hit:
+                                    hit.discard(t.id)
+                    elif isinstance(st, ast.AugAssign) and isinstance(st.target, ast.Name) and st.target.id in names:
+                        state[st.target.id] = "assigned"
+                    if isinstance(st, ast.Expr) and isinstance(st.value, ast.Call) and src(st.value.func) == R + ".append" and st.value.args \
+                            and isinstance(st.value.args[0], ast.Name) and state.get(st.value.args[0].id) == "assigned":
+                        n += 1
+                        ctx.fail("S4", st, q, "append of unchecked %s" % st.value.args[0].id,
+                                 "on the path [%s] `%s` is assigned and appended to %s without having been looked up in it" %
+                                 (p.describe()[:100], st.value.args[0].id, R))
+                n += 1
+                stale = sorted(k for k, v in state.items() if v == "assigned")
+                if stale:
+                    ctx.fail("S4", lp, q, "%s assigned after its look-up in %s" % (stale[0], R),
+                             "on the path [%s] of the experiment loop `%s` is (re-)assigned after - or without - being looked up in %s; the name "
+                             "that is appended later never passed the duplicate check in this form: two experiments can get the same folder "
+                             "and overwrite each other" % (p.describe()[:120], stale[0], R))
+                else:
+                    ctx.ok("S4", "%s:%d" % (IDS, lp.lineno), "%s: path [%s] leaves every experiment name looked up in %s" % (q, p.describe()[:60], R),
+                           nontrivial=bool(state))
+    ctx.floor("S4", "name-list definitions / appends / loop paths of the two description parsers", n, 8)
+
+
 def run(prog, ctx):
+    ctx.rule("S4", "the experiment names returned by get_samples_from_file / get_samples_from_yaml are pairwise distinct by the parsers' own "
+                   "argument: the returned list starts empty, grows only by append(name), is never rebuilt, and on every path of the "
+                   "experiment loop a name is looked up in that list after its last assignment (the replacement under a hit counts as "
+                   "part of the look-up)")
+    s4_distinct_names(prog, ctx)
     ctx.rule("S2", "in every outermost loop of src/input_data_storage.py (experiment enumeration) a local that is assigned inside the "
                    "loop is assigned on every path of the current iteration before it is read; only `x += const` counters carry")
     s2_experiment_parsing(prog, ctx)
